@@ -553,7 +553,11 @@ public:
           // Else, for tainted_volatile, this will allow a
           // time-of-check-time-of-use attack
           auto val_copy = std::make_unique<T_Deref>();
-          *val_copy = *val;
+          // Read the pointee through its sandbox representation, whose width
+          // and encoding may differ from the application's
+          auto val_cell =
+            reinterpret_cast<const tainted_volatile<T_Deref, T_Sbx>*>(val);
+          *val_copy = val_cell->UNSAFE_unverified();
           return verifier(std::move(val_copy));
         }
       }
@@ -624,9 +628,9 @@ private:
     RLBOX_VERIF_INTERLEAVE(2);
 
     for (size_t i = 0; i < count; i++) {
-      auto p_src_i_tainted = &(impl()[i]);
-      auto p_src_i = p_src_i_tainted.get_raw_value();
-      detail::convert_type_fundamental_or_array(target[i], *p_src_i);
+      // Read each element through its sandbox representation, whose width and
+      // encoding may differ from the application's
+      target[i] = impl()[i].UNSAFE_unverified();
     }
 
     return target;
